@@ -338,32 +338,38 @@ def cache_use_rule(ctx):
             out_e = _resolve_in_block(cached, out_e.id, rets[0]) or out_e
         if isinstance(ld_e, ast.Name):
             ld_e = _resolve_in_block(cached, ld_e.id, rets[0]) or ld_e
-        # outputs: F.linear(<inputs or inputs - bias>, self.cache.<field>[, bias])
-        lin = [c for c in ast.walk(out_e) if isinstance(c, ast.Call) and norm_text(c.func).split(".")[-1] == "linear"]
-        if len(lin) != 1:
-            res.undecide("Linear.%s cached outputs" % direction, "not a single F.linear call")
+        # outputs in the matrix-word algebra (nfstatic/linword.py): with C = cache.weight and
+        # cache.inverse = C^-1 (CACHE-MAP), forward must be X C^T + b and inverse (X - b) C^-T,
+        # in any spelling
+        from ..linword import LinEval, Undecided, Val
+        from ..symexp import paths_of as _paths_of
+
+        class _CacheEval(LinEval):
+            def _ev(self, e):
+                ch = attr_chain(e) if isinstance(e, ast.Attribute) else None
+                if ch in ("self.cache.weight", "self.cache.inverse"):
+                    self.atoms.add("C", kind="general")
+                    return Val.atom("C", self.atoms, inv=(ch == "self.cache.inverse"))
+                return LinEval._ev(self, e)
+
+        cpaths = [pp for pp in _paths_of(fi.node) if pp.kind == "return" and any("using_cache" in norm_text(raw) and pol for _, raw, pol in pp.conds)]
+        if len(cpaths) != 1 or not (isinstance(cpaths[0].ret, ast.Tuple) and len(cpaths[0].ret.elts) == 2):
+            res.undecide("Linear.%s cached outputs" % direction, "no single cached returning path")
         else:
-            c = lin[0]
-            warg = c.args[1] if len(c.args) > 1 else next((k.value for k in c.keywords if k.arg == "weight"), None)
-            fld = _self_cache_field(warg) if warg is not None else None
-            if fld != field:
-                res.fail(Finding("CACHE-USE", fi.module, fi.qualname, c, "cached %s applies cache.%s, expected cache.%s" % (direction, fld, field)))
+            ev = _CacheEval(p, base, xname=fi.params()[0][0])
+            X, bb = Val.atom("X", ev.atoms), Val.atom("b", ev.atoms)
+            ev.atoms.add("C", kind="general")
+            C = Val.atom("C", ev.atoms)
+            expect = X.mul(C.t()).add(bb) if direction == "forward" else X.add(bb, -1).mul(C.inv().t())
+            try:
+                got = ev.mat(cpaths[0].ret.elts[0])
+            except Undecided as ex:
+                res.undecide("Linear.%s cached outputs" % direction, str(ex))
             else:
-                res.ok("Linear.%s applies cache.%s" % (direction, field))
-            # affine form agreement with the documented map: forward adds the bias after, inverse subtracts it before
-            x = c.args[0] if c.args else None
-            barg = c.args[2] if len(c.args) > 2 else next((k.value for k in c.keywords if k.arg == "bias"), None)
-            if direction == "forward":
-                if barg is None or attr_chain(barg) != "self.bias":
-                    res.fail(Finding("CACHE-USE", fi.module, fi.qualname, c, "cached forward must add self.bias after the matrix product"))
+                if got == expect:
+                    res.ok("Linear.%s cached outputs = %s  (C = cache.weight, cache.inverse = C^-1)" % (direction, got.show()))
                 else:
-                    res.ok("Linear.forward cached branch adds self.bias")
-            else:
-                terms = signed_terms(x) if x is not None else []
-                if not any(s == -1 and attr_chain(t) == "self.bias" for s, t in terms) or barg is not None:
-                    res.fail(Finding("CACHE-USE", fi.module, fi.qualname, c, "cached inverse must subtract self.bias before the matrix product"))
-                else:
-                    res.ok("Linear.inverse cached branch subtracts self.bias first")
+                    res.fail(Finding("CACHE-USE", fi.module, fi.qualname, cpaths[0].ret_node, "cached %s computes `%s` (C = cache.weight, C^-1 = cache.inverse) but the uncached map is `%s`" % (direction, got.show(), expect.show())))
         # log-det sign
         terms = signed_terms(ld_e)
         found = []
